@@ -97,6 +97,11 @@ char * snoopy_util_pwd_convertUidToUsername (uid_t uid)
         }
         buffpwd_uid = biggerBuf;
     }
+    if ((ENOENT == lookupStatus) || (ESRCH == lookupStatus)) {
+        // "No such entry" said the other way - this is how glibc answers when the database file itself is absent (minimal container, chroot)
+        lookupStatus = 0;
+        pwd_uid = NULL;
+    }
     if (0 != lookupStatus) {
         free(buffpwd_uid);
         free(username);
